@@ -4,6 +4,7 @@ from mirsym.exec import Executor, State, Unsupported
 from mirsym.values import *
 from checks.common import *
 from checks.renderables import *
+from mirsym.models.maps import MapV
 
 
 def analyse(ob, ex, name, results, sink):
@@ -17,6 +18,9 @@ def analyse(ob, ex, name, results, sink):
         if kind == 'panic':
             ob.violation(f'{name}/panic', f'{name} panics with a failing sink or otherwise: {val}', {'log': repr(log)[:400]}, None, None, note='no-replay-needed' if False else None)
             continue
+        if sink.short_pending(s) is not None and val.variant == 'Ok':
+            ob.violation(f'{name}/short-write-ignored', f'{name} used io::Write::write and ignored a short count: the rest of {sink.short_pending(s)} is lost',
+                         {'log': repr(log)[:400]}, scenario_for(name), confirm_sink)
         failed = any(e[0] == 'FAIL' for e in log)
         after = [e for e in log if e[0] == 'AFTER-FAIL']
         if failed:
@@ -54,9 +58,11 @@ SCENARIOS = {
 
 def scenario_for(name):
     base = name.split('(')[0]
+    if base == 'Partials':
+        return {'kind': 'sinkfault', 'template': "a{% include 'p' %}b{% render 'p' %}c", 'partials': {'p': '[partial]'}, 'globals': {'x': 1}}
     tpl = SCENARIOS.get(base)
     if tpl is None: return None
-    return {'kind': 'sinkfault', 'template': tpl, 'globals': {'x': 1, 'y': 'why', 'a': [1, 1, 2, 3]}}
+    return {'kind': 'sinkfault', 'template': tpl, 'globals': {'x': 1, 'y': 'why', 'a': [10, 10, 22, 333]}}
 
 
 def confirm_sink(res):
@@ -87,6 +93,56 @@ def ob_renderable(chk, P, which):
         ob.absorb(ex)
 
 
+def ob_buffered_equals_streamed(chk, P):
+    with chk.obligation('liquid::Template::render/streamed==buffered', 'the buffering render is render_to into a private Vec: the template body sees the same runtime (same layers, same caller data, '
+                        'same partial store) and writer contents either way, and the returned String is exactly the bytes written',
+                        {'body': 'abstract child writing 0..1 chunks', 'partials': 'present / absent'}) as ob:
+        ex = Executor(P, models_with(registers_models())); ex.seed = chk.seed
+        f_render = P.find_method('Template', 'render', None, 'liquid'); f_to = P.find_method('Template', 'render_to', None, 'liquid')
+        for with_partials in (False, True):
+            seen = {}
+            for which, fn in (('render', f_render), ('render_to', f_to)):
+                st = State()
+                def probe_handler(ctx, me, args, s, which=which):
+                    if method_of(ctx.callee) != 'render_to': return None
+                    seen[which] = describe_scope(s, args[2])
+                    w = args[1]
+                    while isinstance(s.deref(w), Ref): w = s.deref(w)
+                    tgt = s.deref(w)
+                    if isinstance(tgt, VecV):
+                        s.store(w, VecV(tgt.items + (Opaque(('chunk', 'probe', 0)),), tgt.ty))
+                        return ret(s, Ok(UNIT))
+                    def g():
+                        for s2, ok in tgt.data.write(ctx.ex, s, ('chunk', 'probe', 0)):
+                            yield s2, 'ret', Ok(UNIT) if ok else Err(Adt('LiquidError', None, [Opaque(('msg', 'x'))]))
+                    return g()
+                tpl = Adt('Template', None, [VecV([st.ref(Abs('probe', probe_handler), True)])], ['elements'])
+                parts = Some(st.ref(Opaque(('PARTIAL_STORE',)), True)) if with_partials else NONE
+                self_ = st.ref(Adt('Template', None, [tpl, parts], ['template', 'partials']))
+                dref = st.ref(MapV(('k',), (VALUE_NIL,), 'Object'))
+                sink = SinkEnv('W', may_fail=False, may_short=False)
+                args = [self_, dref] if which == 'render' else [self_, st.ref(sink.abs(), True), dref]
+                for s2, kind, val in ex.run(fn, args, st):
+                    ob.paths += 1; ob.reached()
+                    if kind == 'panic':
+                        ob.violation(f'Template::{which}/panic', f'liquid::Template::{which} panics: {val}', {}, scenario_for('Partials'), confirm_sink); continue
+                    if which == 'render':
+                        seen['render_out'] = repr(val)
+                    else:
+                        seen['to_log'] = repr(sink.text(s2))
+            bad = None
+            if seen.get('render') != seen.get('render_to'):
+                bad = f"the template sees different runtimes: render -> {seen.get('render')}, render_to -> {seen.get('render_to')}"
+            elif "('chunk', 'probe', 0)" not in seen.get('render_out', '') or seen.get('render_out', '').count("('chunk'") != 1:
+                bad = f"render returned {seen.get('render_out')} for a body that wrote exactly one chunk"
+            elif with_partials and 'PARTIAL_STORE' not in repr(seen.get('render_to')):
+                bad = f"the partial store of the template is not handed to the runtime: {seen.get('render_to')}"
+            if bad:
+                ob.violation('Template::render/differs-from-render_to', bad, {'seen': {k: str(v)[:300] for k, v in seen.items()}}, scenario_for('Partials'), confirm_sink)
+            ob.sample({'partials': with_partials, 'runtime_seen': repr(seen.get('render'))[:200]})
+        ob.absorb(ex)
+
+
 ALL = ['Text', 'RawT', 'FilterChain', 'Template', 'Conditional', 'Increment', 'Decrement', 'Capture', 'IfChanged', 'Case', 'Cycle', 'For', 'TableRow']
 
 
@@ -94,3 +150,4 @@ def run(chk):
     P = chk.program(('core', 'lib', 'liquid'))
     for w in ALL:
         ob_renderable(chk, P, w)
+    ob_buffered_equals_streamed(chk, P)
